@@ -64,37 +64,52 @@ def Segmenter.ofGroup {σ : Type} (glue : σ → Char → Bool) (upd : σ → Ch
     | nil => simp [group] at hg
     | cons c t => exact groupGo_ne_nil glue upd init _ _ _ (by simp) g hg
 
+/-- The class strings are `<Grapheme_Cluster_Break>` optionally followed by `/C`, `/L` or `/E`
+    (Indic_Conjunct_Break = Consonant / Linker / Extend, for GB9c). -/
+def gcbBase (k : String) : String := (k.splitOn "/").headD k
+def gcbInCB (k : String) : String := ((k.splitOn "/").drop 1).headD ""
+
 /-- state of the UAX #29 scan: class of the previous character, whether we are inside
-    `ExtPict Extend*` (for GB11), and whether the run of regional indicators so far is odd (GB12/13) -/
+    `ExtPict Extend*` (for GB11), whether the run of regional indicators so far is odd (GB12/13),
+    and how far an Indic conjunct has got (GB9c): 0 = not in one, 1 = consonant (then only
+    InCB extenders), 2 = a linker has been seen as well -/
 structure UaxSt where
   prev : String
   pict : Bool
   riOdd : Bool
+  incb : Nat := 0
+
+def incbNext (st : Nat) (i : String) : Nat :=
+  if i == "C" then 1
+  else if i == "L" then (if st ≥ 1 then 2 else 0)
+  else if i == "E" then st
+  else 0
 
 def uaxInit (cls : Char → String) (c : Char) : UaxSt :=
-  let k := cls c
-  { prev := k, pict := k == "ExtPict", riOdd := k == "RI" }
+  let k := gcbBase (cls c)
+  { prev := k, pict := k == "ExtPict", riOdd := k == "RI", incb := incbNext 0 (gcbInCB (cls c)) }
 
 def uaxUpd (cls : Char → String) (st : UaxSt) (c : Char) : UaxSt :=
-  let k := cls c
+  let k := gcbBase (cls c)
   { prev := k
     pict := if k == "ExtPict" then true
             else if k == "Extend" then st.pict
             else if k == "ZWJ" then false   -- the ZWJ case is handled through `prev`/`pictZwj` below
             else false
-    riOdd := if k == "RI" then !st.riOdd else false }
+    riOdd := if k == "RI" then !st.riOdd else false
+    incb := incbNext st.incb (gcbInCB (cls c)) }
 
 /-- `pictZwj`: previous char was a ZWJ that closed an `ExtPict Extend*` run; kept by packing it in
     `prev` as the pseudo-class "ZWJ+" -/
 def uaxUpd' (cls : Char → String) (st : UaxSt) (c : Char) : UaxSt :=
-  let k := cls c
+  let k := gcbBase (cls c)
   let s := uaxUpd cls st c
   if k == "ZWJ" && st.pict then { s with prev := "ZWJ+" } else s
 
 /-- no break between `st.prev` and `c`? -/
 def uaxGlue (cls : Char → String) (st : UaxSt) (c : Char) : Bool :=
   let p := st.prev
-  let k := cls c
+  let k := gcbBase (cls c)
   if p == "CR" && k == "LF" then true                         -- GB3
   else if p == "CR" || p == "LF" || p == "Control" then false -- GB4
   else if k == "CR" || k == "LF" || k == "Control" then false -- GB5
@@ -104,6 +119,7 @@ def uaxGlue (cls : Char → String) (st : UaxSt) (c : Char) : Bool :=
   else if k == "Extend" || k == "ZWJ" then true               -- GB9
   else if k == "SpacingMark" then true                        -- GB9a
   else if p == "Prepend" then true                            -- GB9b
+  else if st.incb == 2 && gcbInCB (cls c) == "C" then true    -- GB9c
   else if p == "ZWJ+" && k == "ExtPict" then true             -- GB11
   else if p == "RI" && k == "RI" && st.riOdd then true        -- GB12/13
   else false                                                  -- GB999
